@@ -95,7 +95,7 @@ func (m *Model) Facts() *RepoFacts {
 			for _, sp := range gd.Specs {
 				vs := sp.(*ast.ValueSpec)
 				for i, name := range vs.Names {
-					if name.Name != "functions" || i >= len(vs.Values) {
+					if canonVarName("evaluator", name.Name) != "functions" || i >= len(vs.Values) {
 						continue
 					}
 					found = true
